@@ -54,8 +54,8 @@ def seededsummary():
         mper[d[-1]] = mper.get(d[-1], 0) + 1
     rounds = ", ".join("round %s: %d of %d" % (r, mper.get(r, 0), per[r]) for r in sorted(per))
     return ("Result: all %d kept changes are reported by the **quick** tier of the check of the\n"
-            "property they were seeded for (a few by neighbouring properties as well; C15g,\n"
-            "C15i and C07j only by the neighbouring properties that own the mechanism), in\n"
+            "property they were seeded for (a few by neighbouring properties as well; C15g and\n"
+            "C15i only by the neighbouring property that owns the mechanism, C06 and C07), in\n"
             "most cases by all sixteen shards. %d of them were missed, or caught by a single\n"
             "shard only, when first tried (%s)." % (len(ids), len(missed), rounds))
 
